@@ -576,6 +576,9 @@ class YP(object):
             pass
         finally:
             sys.setrecursionlimit(old_recursionlimit)
+            # an aborted query must not keep its variables bound
+            if hasattr(query, 'close'):
+                query.close()
         return result
 
     def match_dynamic(self, name, args):
